@@ -35,8 +35,16 @@ def run_scenario(sc: dict[str, Any]) -> dict[str, Any]:
         for k in range(sc['nobj']):
             sim.create(f'p{k}', {'x': 0})
         reg = sim.registry()
+        async def stop_in_startup(**_: Any) -> None:
+            # the stop is asked for from within the last startup handler, which then goes on for k more iterations of the loop: the stop
+            # takes effect a few iterations around the end of the startup activity (while the gated root tasks are being let go)
+            kind_, k_ = sc['stop_in_startup']
+            (op.stop if kind_ == 'stop' else op.cancel)()
+            for _i in range(k_):
+                await asyncio.sleep(0)
         for h, script in enumerate(sc['startup'], start=1):
-            kopf.on.startup(registry=reg, id=f's{h}')(sim.handler(f's{h}', [_out(o) for o in script], kind='startup', duration=sc['sdur']))
+            kopf.on.startup(registry=reg, id=f's{h}')(sim.handler(f's{h}', [_out(o) for o in script], kind='startup', duration=sc['sdur'],
+                                                                 extra=stop_in_startup if sc.get('stop_in_startup') and h == len(sc['startup']) else None))
         for h, script in enumerate(sc['cleanup'], start=1):
             kopf.on.cleanup(registry=reg, id=f'c{h}')(sim.handler(f'c{h}', [_out(o) for o in script], kind='cleanup', duration=sc['cdur']))
         kopf.on.event(GROUP, VERSION, PLURAL, registry=reg, id='see')(sim.handler('see', kind='event', duration=sc.get('hdur', 0)))
@@ -274,6 +282,12 @@ def crafted() -> list[dict[str, Any]]:
         for plag, t in ((2, 1), (3, 1), (3, 2), (2, 0)):
             out.append({'id': f'crafted-early-{kind}-{plag}-{t}', 'startup': [], 'cleanup': [['ok']], 'sdur': 0, 'cdur': 0, 'peering': True, 'plag': plag,
                         'nobj': 0, 'dmode': 'obey', 'trigger': (kind, t), 'fault': None, 'bound': 24, 'end': 60,
+                        'edits': [], 'hdur': 0, 'ns2': False, 'nsdel': None})
+    # the stop is asked for at the very end of the startup activity, k iterations of the event loop before the last startup handler returns
+    for kind in ('stop',):       # (a cancellation cannot be asked for from within the operator's own task tree)
+        for k in (0, 1, 2, 3, 4, 5, 6, 8, 12):
+            out.append({'id': f'crafted-stop-at-startup-end-{kind}-{k}', 'startup': [['ok']], 'cleanup': [['ok']], 'sdur': 0, 'cdur': 0, 'peering': k % 2 == 1,
+                        'nobj': 1, 'dmode': 'obey', 'trigger': None, 'stop_in_startup': (kind, k), 'fault': None, 'bound': 20, 'end': 60,
                         'edits': [], 'hdur': 0, 'ns2': False, 'nsdel': None})
     # an object is marked for deletion and its daemon (which leaves only when cancelled) is in the graceful stage of its termination
     # (the worker sleeps for the cancellation backoff) when the operator is stopped: the daemon is stopped all the same, before the cleanup
